@@ -53,7 +53,8 @@ Definition resolve_args (names : list Z) (args : list (key * value)) : option (l
     (* remaining integer keys become keyword arguments named after the parameter at that position *)
     (fix go (l : list (key * value)) (kwp kw : list (key * value)) : option (list value * list (key * value)) :=
        match l with
-       | [] => Some (pos, kwp ++ kw)
+       | [] => (* f( *pos, **kwp, **kw ): the same name in both mappings is a TypeError at the call site *)
+               if existsb (fun a => ahas (fst a) kw) kwp then None else Some (pos, kwp ++ kw)
        | (KI i, v) :: r => match nth_error names (Z.to_nat i) with
                            | Some nm => if i <? 0 then None else go r (kwp ++ [(KS nm, v)]) kw
                            | None => None
@@ -67,103 +68,110 @@ Fixpoint flookup (e : fenv) (z : Z) : option (list Z) := match e with [] => None
 (* import_name succeeds exactly for the targets the environment knows *)
 Definition importable (e : fenv) (x : scalar) : bool := match x with SStr z => match flookup e z with Some _ => true | None => false end | _ => false end.
 
-Section Eval.
+Definition is_xref (n : node) : option Z := match n with Leaf LXRef _ (SStr z) => Some z | _ => None end.
+
+Section Rules.
   Variables (root : node) (pe : penv) (fe : fenv).
+  (* the recursive call ctx.evaluate_node(child, prefix) *)
+  Variable rec : bool -> node -> path -> est -> res (value * est).
 
-  Definition is_xref (n : node) : option Z := match n with Leaf LXRef _ (SStr z) => Some z | _ => None end.
+  (* children of a mapping-like node, in order (dict.py 117-119 / list.py 157-159) *)
+  Definition eval_step (p : path) (ras : bool) (acc : res (list (key * value) * est)) (kc : key * node) : res (list (key * value) * est) :=
+    do a <- acc;
+    do r <- rec ras (snd kc) (p ++ [fst kc]) (snd a);
+    Ok (fst a ++ [(fst kc, fst r)], snd r).
+  Definition eval_items (p : path) (ras : bool) (ch : list (key * node)) (st : est) : res (list (key * value) * est) :=
+    fold_left (eval_step p ras) ch (Ok ([], st)).
 
-  Fixpoint ev (fuel : nat) (ras : bool) (n : node) (p : path) (st : est) {struct fuel} : res (value * est) :=
-    match fuel with
+  (* XRefNode.on_evaluate_impl: follow the chain of references (xref.py 27-38) *)
+  Fixpoint follow (p : path) (ras : bool) (ff : nat) (chain : list path) (z : Z) (st : est) {struct ff} : res (value * est) :=
+    match ff with
     | O => Err EFuel p
-    | S fu =>
-      (* EvalContext.evaluate_node *)
-      if (ras && negb (safe (nflags n)))%bool then Err EUnsafe p
-      else match lookup_path p (done st) with
-      | Some v => Ok (v, st)
-      | None =>
-        if path_in p (stack st) then Err EEval p   (* re-entered while in progress: unbounded recursion, reported as EvalError *)
-        else
-          let st1 := push p st in
-          (* children of a mapping-like node, in order *)
-          let eval_items (ras' : bool) (ch : list (key * node)) (st : est) : res (list (key * value) * est) :=
-            fold_left (fun (acc : res (list (key * value) * est)) (kc : key * node) =>
-                         do a <- acc;
-                         do r <- ev fu ras' (snd kc) (p ++ [fst kc]) (snd a);
-                         Ok (fst a ++ [(fst kc, fst r)], snd r)) ch (Ok ([], st)) in
-          (* XRefNode.on_evaluate_impl: follow the chain of references *)
-          let follow :=
-            (fix follow (ff : nat) (chain : list path) (z : Z) (st : est) {struct ff} : res (value * est) :=
-               match ff with
-               | O => Err EFuel p
-               | S ff' =>
-                 match plookup pe z with
-                 | None => Err EEval p                      (* not a valid path *)
-                 | Some tp =>
-                   match (if ras then None else lookup_path tp (done st)) with
-                   | Some v => if path_in tp chain then Err EEval p else Ok (v, st)
-                   | None =>
-                     match get_node root tp with
-                     | None => Err EEval p                  (* missing *)
-                     | Some tn =>
-                       if path_in tp chain then Err EEval p (* circular *)
-                       else match is_xref tn with
-                            | Some z' => follow ff' (chain ++ [tp]) z' st
-                            | None => ev fu ras tn tp st
-                            end
-                     end
-                   end
+    | S ff' =>
+      match plookup pe z with
+      | None => Err EEval p                      (* not a valid path *)
+      | Some tp =>
+        match (if ras then None else lookup_path tp (done st)) with
+        | Some v => if path_in tp chain then Err EEval p else Ok (v, st)
+        | None =>
+          match get_node root tp with
+          | None => Err EEval p                  (* missing *)
+          | Some tn =>
+            if path_in tp chain then Err EEval p (* circular *)
+            else match is_xref tn with
+                 | Some z' => follow p ras ff' (chain ++ [tp]) z' st
+                 | None => rec ras tn tp st
                  end
-               end) in
-          let r :=
-            match n with
-            | Leaf LXRef _ (SStr z) => follow (S (nsize root)) [p] z st1
-            | Leaf LXRef _ _ => Err EEval p
-            | Leaf LRequired _ _ => Err EEval p
-            | Leaf LClear _ _ | Leaf LInclude _ _ => Err EEval p
-            | Leaf LImport f v =>
-              if negb (safe f) then Err EUnsafe p
-              else if negb (importable fe v) then Err EEval p
-              else Ok (VImport v, emit (EvImport p v) st1)
-            | Leaf (LEval | LFStr) f v =>
-              if negb (safe f) then Err EUnsafe p
-              else let '(o, st2) := alloc (emit (EvExec p) st1) in Ok (VOpaque o 0, st2)
-            | Leaf _ _ v => Ok (VS v, st1)
-            | Comp k f x ch =>
-              if is_funck k then
-                if negb (safe f) then Err EUnsafe p
-                else if negb (importable fe x) then Err EEval p
-                else
-                  let st2 := match x with SStr _ => emit (EvImport p x) st1 | _ => st1 end in
-                  match eval_items true ch st2 with
-                  | Err EUnsafe _ => Err EEval p        (* require_all_safe turns it into an EvalError of the call node *)
-                  | Err e q => Err e q
-                  | Ok (args, st3) =>
-                    match resolve_args (match flookup fe (match x with SStr z => z | _ => 0 end) with Some l => l | None => [] end) args with
-                    | None => Err EEval p
-                    | Some (pos, kw) =>
-                      let '(o, st4) := alloc st3 in
-                      match k with
-                      | CBind => Ok (VPartial o x pos kw, emit (EvBind p x) st4)
-                      | _ => Ok (VCallRes o x pos kw, emit (EvCall p x) st4)
-                      end
-                    end
-                  end
-              else if is_listk k then
-                do r <- eval_items ras ch st1;
-                let '(o, st3) := alloc (snd r) in
-                match k with
-                | CPath => Ok (VOpaque o 1, st3)
-                | _ => Ok (VL o (map snd (fst r)), st3)
-                end
-              else
-                do r <- eval_items ras ch st1;
-                let '(o, st3) := alloc (snd r) in Ok (VD o (fst r), st3)
-            end in
-          do vr <- r;
-          Ok (fst vr, finish p (fst vr) (snd vr))
+          end
+        end
       end
     end.
-End Eval.
+
+  (* node.on_evaluate(path, ctx), by kind *)
+  Definition on_evaluate (ras : bool) (n : node) (p : path) (st1 : est) : res (value * est) :=
+    match n with
+    | Leaf LXRef _ (SStr z) => follow p ras (S (nsize root)) [p] z st1
+    | Leaf LXRef _ _ => Err EEval p
+    | Leaf LRequired _ _ => Err EEval p
+    | Leaf LClear _ _ | Leaf LInclude _ _ => Err EEval p
+    | Leaf LImport f v =>
+      if negb (safe f) then Err EUnsafe p
+      else if negb (importable fe v) then Err EEval p
+      else Ok (VImport v, emit (EvImport p v) st1)
+    | Leaf (LEval | LFStr) f v =>
+      if negb (safe f) then Err EUnsafe p
+      else let '(o, st2) := alloc (emit (EvExec p) st1) in Ok (VOpaque o 0, st2)
+    | Leaf _ _ v => Ok (VS v, st1)
+    | Comp k f x ch =>
+      if is_funck k then
+        if negb (safe f) then Err EUnsafe p
+        else if negb (importable fe x) then Err EEval p
+        else
+          let st2 := match x with SStr _ => emit (EvImport p x) st1 | _ => st1 end in
+          match eval_items p true ch st2 with
+          | Err EUnsafe _ => Err EEval p        (* require_all_safe turns it into an EvalError of the call node *)
+          | Err e q => Err e q
+          | Ok (args, st3) =>
+            match resolve_args (match flookup fe (match x with SStr z => z | _ => 0 end) with Some l => l | None => [] end) args with
+            | None => Err EEval p
+            | Some (pos, kw) =>
+              let '(o, st4) := alloc st3 in
+              match k with
+              | CBind => Ok (VPartial o x pos kw, emit (EvBind p x) st4)
+              | _ => Ok (VCallRes o x pos kw, emit (EvCall p x) st4)
+              end
+            end
+          end
+      else if is_listk k then
+        do r <- eval_items p ras ch st1;
+        let '(o, st3) := alloc (snd r) in
+        match k with
+        | CPath => Ok (VOpaque o 1, st3)
+        | _ => Ok (VL o (map snd (fst r)), st3)
+        end
+      else
+        do r <- eval_items p ras ch st1;
+        let '(o, st3) := alloc (snd r) in Ok (VD o (fst r), st3)
+    end.
+
+  (* EvalContext.evaluate_node (eval_context.py 122-155) *)
+  Definition eval_node (ras : bool) (n : node) (p : path) (st : est) : res (value * est) :=
+    if (ras && negb (safe (nflags n)))%bool then Err EUnsafe p
+    else match lookup_path p (done st) with
+         | Some v => Ok (v, st)
+         | None =>
+           if path_in p (stack st) then Err EEval p   (* re-entered while in progress: unbounded recursion, reported as EvalError *)
+           else
+             do vr <- on_evaluate ras n p (push p st);
+             Ok (fst vr, finish p (fst vr) (snd vr))
+         end.
+End Rules.
+
+Fixpoint ev (root : node) (pe : penv) (fe : fenv) (fuel : nat) (ras : bool) (n : node) (p : path) (st : est) {struct fuel} : res (value * est) :=
+  match fuel with
+  | O => Err EFuel p
+  | S fu => eval_node root pe fe (ev root pe fe fu) ras n p st
+  end.
 
 (* Config.check_missing *)
 Definition is_required (n : node) : bool := match n with Leaf LRequired _ _ => true | _ => false end.
